@@ -588,7 +588,64 @@ func c20Run(raw json.RawMessage) (Case, error) {
 		}
 		env.Upstream.EnqueueSpan(s.Span)
 	}
-	recv, err := r2DecodeBatches(env.Finish())
+	reqs := env.Finish()
+	// second hop: what arrived at the peer endpoint is posted, byte for byte and with the headers the
+	// peer transmission sent, to the batch handler of a second node (peer listener) that owns every
+	// trace; its collector applies the event's ops and transmits upstream
+	hop2 := map[int]string{}
+	var firstHop []r2Request
+	var peerReqs []r2Request
+	for _, rq := range reqs {
+		if rq.Prefix == "peer" {
+			peerReqs = append(peerReqs, rq)
+		} else {
+			firstHop = append(firstHop, rq)
+		}
+	}
+	if len(peerReqs) > 0 {
+		env2, err := r2NewEnv(r2Options{TraceNames: in.TraceNames, ParentNames: in.ParentNames, KeyFields: in.KeyFields, Incoming: false})
+		if err != nil {
+			return Case{}, err
+		}
+		for _, rq := range peerReqs {
+			ua2 := rq.Headers.Get("User-Agent")
+			code, _ := env2.Post("batch", strings.TrimPrefix(rq.Path, "/1/batch/"), rq.Headers.Get("Content-Type"), rq.APIKey, ua2, nil, rq.Body)
+			statuses = append(statuses, code)
+			if v, _, err := mpDecode(rq.Body); err == nil && v.T == "arr" {
+				for _, evv := range v.A {
+					for _, f := range evv.M {
+						if string(f.K) == "time" && f.V.T == "time" {
+							hop2[int(f.V.Sec-c20BaseTime)] = ua2
+						}
+					}
+				}
+			}
+		}
+		n2 := len(env2.Log)
+		for li := 0; li < n2; li++ {
+			s := env2.Log[li]
+			idx := int(s.Snap.TimeSec - c20BaseTime)
+			if idx < 0 || idx >= len(in.Events) {
+				return Case{}, fmt.Errorf("second hop: unexpected timestamp %d at sink %s", s.Snap.TimeSec, s.Sink)
+			}
+			route[idx] = "peer>" + s.Sink
+			if s.Sink != "collector-peer" {
+				continue
+			}
+			atCollector[idx] = true
+			for _, o := range in.Events[idx].Ops {
+				switch o.Op {
+				case "memoize":
+					s.Span.Data.MemoizeFields(o.Keys...)
+				case "set":
+					s.Span.Data.Set(o.K, c20GoValue(*o.V))
+				}
+			}
+			env2.Upstream.EnqueueSpan(s.Span)
+		}
+		firstHop = append(firstHop, env2.Finish()...)
+	}
+	recv, err := r2DecodeBatches(firstHop)
 	if err != nil {
 		return Case{}, err
 	}
@@ -628,7 +685,11 @@ func c20Run(raw json.RawMessage) (Case, error) {
 		if got[i] {
 			o = cq.Some(mpCoqFields(obs[i]))
 		}
-		evs = append(evs, fmt.Sprintf("{| e_fields := %s; e_ops := %s; e_obs := %s |}", mpCoqFields(ev.Fields), cq.List(ops), o))
+		h2 := cq.None()
+		if ua2, ok := hop2[i]; ok {
+			h2 = cq.Some(cq.Str(ua2))
+		}
+		evs = append(evs, fmt.Sprintf("{| e_fields := %s; e_ops := %s; e_hop2 := %s; e_obs := %s |}", mpCoqFields(ev.Fields), cq.List(ops), h2, o))
 		rt := route[i]
 		if rt == "" {
 			rt = "none"
